@@ -219,7 +219,10 @@ pub fn placeholder_pool(e: &str, full: bool) -> Vec<Val> {
                           Decimal::new(i64::MAX, 0), Decimal::new(1, 0), Decimal::new(27, 0), Decimal::new(28, 0), Decimal::new(5, 1)]
                 .into_iter().map(Val::D).collect(),
             "cpx" => vec![Complex::new(f64::NAN, 0.0), Complex::new(f64::INFINITY, -0.0), Complex::new(-0.0, -0.0), Complex::new(0.0, 0.0), Complex::new(0.0, 1.0),
-                          Complex::new(-1.0, 0.0), Complex::new(1e300, 1e300), Complex::new(5e-324, -5e-324), Complex::new(f64::NEG_INFINITY, f64::NAN)]
+                          Complex::new(-1.0, 0.0), Complex::new(1e300, 1e300), Complex::new(5e-324, -5e-324), Complex::new(f64::NEG_INFINITY, f64::NAN),
+                          // every sign pattern of a zero component next to a non-zero one (branch-cut side = bit of the zero)
+                          Complex::new(-4.0, -0.0), Complex::new(-4.0, 0.0), Complex::new(2.0, -0.0), Complex::new(-0.0, 3.0), Complex::new(0.0, -3.0), Complex::new(-0.0, -3.0),
+                          Complex::new(0.0, -0.0), Complex::new(-0.0, 0.0)]
                 .into_iter().map(Val::C).collect(),
             _ => vec![Number::Float(f64::NAN), Number::Float(f64::INFINITY), Number::Float(f64::NEG_INFINITY), Number::Float(-0.0), Number::Float(0.0),
                       Number::Integer(i64::MIN), Number::Integer(i64::MAX), Number::Float(3.0), Number::Integer(0), Number::Float(9.3e18), Number::Float(0.5),
@@ -352,6 +355,32 @@ pub fn replay_base(out: &mut Out, v: &Vocab, e: &str, b: &Beh, pols: &[Policy], 
 /// Direction A at character level (spec/MCLexer.tla): one behaviour = a character string with the
 /// specification's verdict, tokens (with payload) and tree.
 pub fn replay_string(out: &mut Out, e: &str, bv: &Value, phs: &[Val], idx: u64) -> (String, Vec<(Val, Outcome)>) {
+    replay_string_with(out, e, bv, phs, idx, None)
+}
+
+/// the foreign characters that resemble, or are encoded next to, the character standing beside a foreign position
+pub fn related_foreign(chars: &[String]) -> Vec<char> {
+    let mut v: Vec<char> = Vec::new();
+    for (i, c) in chars.iter().enumerate() {
+        if c != "OTHER" { continue; }
+        for n in [if i > 0 { Some(&chars[i - 1]) } else { None }, chars.get(i + 1)].into_iter().flatten() {
+            let rel: &[char] = match n.as_str() {
+                x if x.starts_with("SUP") => &['\u{2071}', '\u{2072}', '\u{2073}', '\u{207A}', '\u{207B}', '\u{207F}', '\u{2080}', '\u{2082}'],
+                "LFLOOR" | "RFLOOR" | "LCEIL" | "RCEIL" => &['\u{2307}', '\u{230C}', '\u{2320}', '\u{27E6}', '\u{3008}'],
+                "DEG" => &['\u{00BA}', '\u{02DA}', '\u{00AA}'],
+                "PI_SYM" | "p" | "i" => &['\u{03A0}', '\u{03D6}', '\u{1D70B}'],
+                "@" => &['\u{FF20}', '\u{FE6B}'],
+                "+" | "-" | "*" | "/" | "(" | ")" | "^" | "%" => &['\u{FF0B}', '\u{2212}', '\u{00D7}', '\u{00F7}', '\u{2215}', '\u{FF08}', '\u{FF09}'],
+                x if x.len() == 1 && x.as_bytes()[0].is_ascii_digit() => &['\u{FF11}', '٣', '𝟙', '\u{2080}', '\u{2071}'],
+                _ => &[],
+            };
+            for r in rel { if !v.contains(r) { v.push(*r); } }
+        }
+    }
+    v
+}
+
+pub fn replay_string_with(out: &mut Out, e: &str, bv: &Value, phs: &[Val], idx: u64, foreign: Option<char>) -> (String, Vec<(Val, Outcome)>) {
     use crate::render::Asg;
     use crate::vocab::{concrete, FOREIGN, WHITE_SPACE};
     let chars: Vec<String> = bv["chars"].as_array().unwrap().iter().map(|c| c.as_str().unwrap().to_string()).collect();
@@ -359,7 +388,7 @@ pub fn replay_string(out: &mut Out, e: &str, bv: &Value, phs: &[Val], idx: u64) 
     for (i, c) in chars.iter().enumerate() {
         match c.as_str() {
             "WS" => text.push(WHITE_SPACE[(idx as usize + i) % 25]),
-            "OTHER" => text.push(FOREIGN[(idx as usize + i) % FOREIGN.len()]),
+            "OTHER" => text.push(foreign.unwrap_or(FOREIGN[(idx as usize + i) % FOREIGN.len()])),
             _ => text.push_str(&concrete(c)),
         }
     }
